@@ -241,6 +241,12 @@ def run_workers(fn, nworkers, *args):
 def alloc_limit(run, res):
     """True (and counted as inconclusive) when the run ended because one request exceeded the allocation cap that ASAN_OPTIONS sets for
     every check (max_allocation_size_mb): a limit of the harness, not a verdict about the code."""
+    if getattr(run, "timed_out", False):
+        # the 60 s guard of one driver run expired (seen under load for a model that produces 1.5 million constraints): the driver was
+        # killed, whatever it had written is cut off - a time budget hit is inconclusive, never a verdict
+        res.inconclusive += 1
+        res.label("guard-expired (per-run time limit of the driver)")
+        return True
     err = getattr(run, "err", "") or ""
     if "out-of-memory" in err or "allocation-size-too-big" in err or "requested allocation size" in err or "allocator is out of memory" in err:
         res.inconclusive += 1
